@@ -33,80 +33,53 @@ macro_rules! seg_inv {
     };
 }
 
-/// promotion of probationary entry i (optionally storing a new value): the SLRU rule of C07
-fn spec_promote(pre: &SegAbs, i: usize, newval: Option<u8>) -> (Abs, Abs) {
-    let k = pre.probationary.k[i];
-    let v = match newval {
-        Some(v) => v,
-        None => pre.probationary.v[i],
-    };
-    let pb1 = pre.probationary.remove_at(i);
-    if pre.protected.n < pre.protected.cap {
-        (pb1, pre.protected.push_front(k, v))
-    } else {
-        let (dk, dv) = (pre.protected.k[pre.protected.n - 1], pre.protected.v[pre.protected.n - 1]);
-        // protected's least-recent entry is demoted to probationary's most-recent end, never evicted
-        (pb1.push_front(dk, dv), pre.protected.drop_last().push_front(k, v))
+
+
+
+
+
+
+// One harness for `put`: the three cases share one symbolic run of the real `put`.
+#[kani::proof]
+#[kani::unwind(6)]
+fn seg_put() {
+    let (mut s, pre) = any_seg(N);
+    let k: u8 = kani::any();
+    let v: u8 = kani::any();
+    let in_protected = pre.protected.has(k);
+    let in_probationary = pre.probationary.has(k);
+    let is_new = !in_protected && !in_probationary;
+
+    kani::cover!((in_protected) && (pre.protected.n >= 2), "seg put: protected hit among several");
+
+    kani::cover!((in_probationary) && (pre.protected.n == pre.protected.cap), "seg put: promotion overflows protected");
+    kani::cover!((in_probationary) && (pre.protected.n < pre.protected.cap), "seg put: promotion with room");
+
+    kani::cover!((is_new) && (pre.probationary.n == pre.probationary.cap), "seg put: new key, probationary full");
+    kani::cover!((is_new) && (pre.probationary.n < pre.probationary.cap), "seg put: new key, room");
+    let r = s.put(k, v);
+    let (post, wf) = s.verif_check();
+    seg_inv!(s, wf, pre, post);
+    if in_protected {
+        let i = pre.protected.pos(k).unwrap();
+        assert!(pr_of(&r) == PR::Update(pre.protected.v[i]), "[C12.result] put on a protected entry returns Update(old)");
+        assert!(post.protected.view_eq(&pre.protected.touch(i, Some(v))) && post.probationary == pre.probationary,
+            "[C07.refresh][C02.value] a hit on a protected entry only refreshes it (and stores the value)");
+    } else if in_probationary {
+        let i = pre.probationary.pos(k).unwrap();
+        let (epb, ept) = spec_promote(&pre, i, Some(v));
+        assert!(pr_of(&r) == PR::Update(pre.probationary.v[i]), "[C12.result][C07.promote] put on a probationary entry returns Update(old): nothing leaves the cache");
+        assert!(put_result_truthful(&[&pre.probationary, &pre.protected], &[&post.probationary, &post.protected], k, v, pr_of(&r)),
+            "[C12.delta] the retained set changed exactly as the PutResult says");
+        assert!(post.protected.view_eq(&ept), "[C07.promote][C02.value] a put hit on a probationary entry promotes it to protected's most-recent end with the new value");
+        assert!(post.probationary.view_eq(&epb), "[C07.demote] protected's least-recent entry is demoted to probationary's most-recent end, never evicted");
+    } else if is_new {
+        let (epb, er) = spec_lru_put(&pre.probationary, k, v);
+        assert!(pr_of(&r) == er, "[C12.result][C07.evict] a new key evicts only probationary's least-recent entry, and only when probationary is full");
+        assert!(post.probationary.view_eq(&epb) && post.protected == pre.protected, "[C07.enter][C02.value] new keys enter probationary's most-recent end; protected untouched");
+        assert!(put_result_truthful(&[&pre.probationary, &pre.protected], &[&post.probationary, &post.protected], k, v, pr_of(&r)),
+            "[C12.delta] the retained set changed exactly as the PutResult says");
     }
-}
-
-#[kani::proof]
-#[kani::unwind(6)]
-fn seg_put_protected_hit() {
-    let (mut s, pre) = any_seg(N);
-    let k: u8 = kani::any();
-    let v: u8 = kani::any();
-    kani::assume(pre.protected.has(k));
-    kani::cover!(pre.protected.n >= 2, "seg put: protected hit among several");
-    let r = s.put(k, v);
-    let (post, wf) = s.verif_check();
-    seg_inv!(s, wf, pre, post);
-    let i = pre.protected.pos(k).unwrap();
-    assert!(pr_of(&r) == PR::Update(pre.protected.v[i]), "[C12.result] put on a protected entry returns Update(old)");
-    assert!(post.protected.view_eq(&pre.protected.touch(i, Some(v))) && post.probationary == pre.probationary,
-        "[C07.refresh][C02.value] a hit on a protected entry only refreshes it (and stores the value)");
-    s.verif_forget();
-}
-
-#[kani::proof]
-#[kani::unwind(6)]
-fn seg_put_probationary_hit() {
-    let (mut s, pre) = any_seg(N);
-    let k: u8 = kani::any();
-    let v: u8 = kani::any();
-    kani::assume(pre.probationary.has(k));
-    kani::cover!(pre.protected.n == pre.protected.cap, "seg put: promotion overflows protected");
-    kani::cover!(pre.protected.n < pre.protected.cap, "seg put: promotion with room");
-    let r = s.put(k, v);
-    let (post, wf) = s.verif_check();
-    seg_inv!(s, wf, pre, post);
-    let i = pre.probationary.pos(k).unwrap();
-    let (epb, ept) = spec_promote(&pre, i, Some(v));
-    assert!(pr_of(&r) == PR::Update(pre.probationary.v[i]), "[C12.result][C07.promote] put on a probationary entry returns Update(old): nothing leaves the cache");
-    assert!(put_result_truthful(&[&pre.probationary, &pre.protected], &[&post.probationary, &post.protected], k, v, pr_of(&r)),
-        "[C12.delta] the retained set changed exactly as the PutResult says");
-    assert!(post.protected.view_eq(&ept), "[C07.promote][C02.value] a put hit on a probationary entry promotes it to protected's most-recent end with the new value");
-    assert!(post.probationary.view_eq(&epb), "[C07.demote] protected's least-recent entry is demoted to probationary's most-recent end, never evicted");
-    s.verif_forget();
-}
-
-#[kani::proof]
-#[kani::unwind(6)]
-fn seg_put_new() {
-    let (mut s, pre) = any_seg(N);
-    let k: u8 = kani::any();
-    let v: u8 = kani::any();
-    kani::assume(!pre.probationary.has(k) && !pre.protected.has(k));
-    kani::cover!(pre.probationary.n == pre.probationary.cap, "seg put: new key, probationary full");
-    kani::cover!(pre.probationary.n < pre.probationary.cap, "seg put: new key, room");
-    let r = s.put(k, v);
-    let (post, wf) = s.verif_check();
-    seg_inv!(s, wf, pre, post);
-    let (epb, er) = spec_lru_put(&pre.probationary, k, v);
-    assert!(pr_of(&r) == er, "[C12.result][C07.evict] a new key evicts only probationary's least-recent entry, and only when probationary is full");
-    assert!(post.probationary.view_eq(&epb) && post.protected == pre.protected, "[C07.enter][C02.value] new keys enter probationary's most-recent end; protected untouched");
-    assert!(put_result_truthful(&[&pre.probationary, &pre.protected], &[&post.probationary, &post.protected], k, v, pr_of(&r)),
-        "[C12.delta] the retained set changed exactly as the PutResult says");
     s.verif_forget();
 }
 
@@ -282,4 +255,26 @@ fn seg_builder_sound() {
     let (b, wf) = s.verif_check();
     assert!(wf && b == a, "[C03.builder] every SegmentedCache state the builder produces is well formed with exactly the intended view");
     s.verif_forget();
+}
+
+// kind: proved (both sizes range over all usize)
+#[kani::proof]
+#[kani::unwind(6)]
+fn seg_builder_finalize_contract() {
+    let pb: usize = kani::any();
+    let pt: usize = kani::any();
+    kani::cover!(pb == 0 && pt != 0, "seg ctor: zero probationary");
+    kani::cover!(pb != 0 && pt == 0, "seg ctor: zero protected");
+    let b = SegmentedCacheBuilder { probationary_size: pb, protected_size: pt, probationary_hasher: Some(PoisonHasher), protected_hasher: Some(PoisonHasher) };
+    let r: Result<Seg, CacheError> = b.finalize();
+    match r {
+        Err(e) => assert!((pb == 0 || pt == 0) && e == CacheError::InvalidSize(0), "[C05.ctor] Err(InvalidSize(0)) exactly when a segment size is 0"),
+        Ok(c) => {
+            let (a, wf) = c.verif_check();
+            assert!(pb != 0 && pt != 0 && wf, "[C05.ctor][C03.wf] construction succeeds exactly for two non-zero sizes");
+            assert!(a.probationary == Abs::empty(pb) && a.protected == Abs::empty(pt) && a.probationary_size == pb && a.protected_size == pt,
+                "[C05.ctor][C01.cap] both segments are empty with their requested capacities, assigned to the right segment");
+            c.verif_forget();
+        }
+    }
 }
